@@ -19,6 +19,7 @@ MODEL = {
         "search": {"type": "Int", "args": {"ids": {"type": "[Int]"}, "f": {"type": "Filter"}, "s": {"type": "String"}}},
         "when": {"type": "Date"},
         "req": {"type": "Int", "args": {"n": {"type": "Int!"}, "m": {"type": "Int!", "default": 3}, "l": {"type": "[Int!]!"}}},
+        "matrix": {"type": "[[Int!]]"}, "grid": {"type": "[[User]!]"}, "roles": {"type": "[Role!]"}, "dates": {"type": "[Date]"},
     }},
     "Mutation": {"kind": "object", "interfaces": [], "fields": {"bump": {"type": "Int", "args": {"by": {"type": "Int!"}}}, "me": {"type": "User"}}},
     "Node": {"kind": "interface", "fields": {"id": {"type": "ID"}, "name": {"type": "String"}}},
@@ -55,7 +56,8 @@ def make_data(null_at=None, list_null=False):
     ann = {"__typename__": "User", "id": "u1", "name": "Ann", "age": 30, "friends": [bob, None] if list_null else [bob], "best": bob, "role": 1,
            "pet": rex, "tags": ["a", "b"], "base_score": 5}
     rex["owner"], tom["owner"] = ann, bob
-    root = {"me": ann, "pets": [rex, tom], "animals": [tom, rex] if null_at == "animals.reversed" else [rex, tom], "users": [ann, bob], "n": 4, "when": "2020", }
+    root = {"me": ann, "pets": [rex, tom], "animals": [tom, rex] if null_at == "animals.reversed" else [rex, tom], "users": [ann, bob], "n": 4, "when": "2020",
+            "matrix": [[1, 2], [], None, [3]], "grid": [[ann, None], [], [bob, ann]], "roles": [1, "u"], "dates": ["a", None]}
     if null_at == "me.name":
         ann["name"] = None
     elif null_at == "me.age":
@@ -160,5 +162,8 @@ TEMPLATES = (
     # execution-time argument coercion failure (null for a non-null argument through a nullable variable with a default) on a field node that is
     # resolved several times: list items, two parents of one fragment
     ("query ($n: Int = 2) { users { name scaled(by: $n) } me { best { scaled(by: $n) } ...S friends { ...S } } } fragment S on User { s2: scaled(by: $n) }", {"n": None}),
+    # nested lists (of scalars with an empty and a null inner list, of objects with a null item), lists of enums and of a custom scalar
+    ("{ matrix grid { name best { name } } roles dates }", {}),
+    ("{ grid { ...G } m2: matrix } fragment G on User { id friends { name } }", {}),
 )
 OPNAMES = {18: "B"}
